@@ -1219,8 +1219,10 @@ package analysis
 //@   ensures forall i in 0..len(s.spec.Produces) :: s.spec.Produces[i] in dom(s.produces)
 //@   loop 1: modifies map s.consumes
 //@   loop 1: invariant forall i in 0..idx :: s.spec.Consumes[i] in dom(s.consumes)
+//@   loop 1: invariant forall c string :: old(c in dom(s.consumes)) ==> c in dom(s.consumes)
 //@   loop 2: modifies map s.produces
 //@   loop 2: invariant forall i in 0..idx :: s.spec.Produces[i] in dom(s.produces)
+//@   loop 2: invariant forall c string :: old(c in dom(s.produces)) ==> c in dom(s.produces)
 //@   loop 3: modifies map s.authSchemes
 //@   loop 4: modifies map s.authSchemes
 //@   loop 5: modifies heap spec.Parameter, heap spec.PathItem, map s.operations, heap map[string]*spec.Operation, map s.consumes, map s.produces, map s.authSchemes, map s.allSchemas, map s.allOfs, map s.references.schemas, map s.references.responses, map s.references.parameters, map s.references.items, map s.references.headerItems, map s.references.parameterItems, map s.references.allRefs, map s.references.pathItems, map s.patterns.parameters, map s.patterns.headers, map s.patterns.items, map s.patterns.schemas, map s.patterns.allPatterns, map s.enums.parameters, map s.enums.headers, map s.enums.items, map s.enums.schemas, map s.enums.allEnums
